@@ -123,6 +123,19 @@ pub struct World {
     pub disabled_ids: BTreeSet<u64>,
 }
 
+/// Interns a dynamically built counter name (bounded set of names).
+pub fn intern(s: &str) -> &'static str {
+    use std::sync::Mutex;
+    static TABLE: Mutex<Vec<&'static str>> = Mutex::new(Vec::new());
+    let mut t = TABLE.lock().unwrap();
+    if let Some(x) = t.iter().find(|x| **x == s) {
+        return x;
+    }
+    let leaked: &'static str = Box::leak(s.to_string().into_boxed_str());
+    t.push(leaked);
+    leaked
+}
+
 fn qa(d: &str, a: &str) -> QualifiedAttribute {
     QualifiedAttribute::new(d, a)
 }
@@ -238,6 +251,8 @@ impl World {
     pub fn check_msk_unchanged(&mut self, before: &Option<Vec<u8>>, op: &str, cause: &str, class: Class) {
         let Some(before) = before else { return };
         self.stats.check("unchanged-msk");
+        // which failing call (operation / error cause) was used as a crash point
+        self.stats.probe(intern(&format!("crash-point/{op}/{cause}")));
         match MasterSecretKey::deserialize(before) {
             Ok(old) => {
                 if old != self.auth.msk {
